@@ -276,7 +276,7 @@ class SegmModel:
 
     def _evaluate_once(self, Laue, cc, csys, sign):
         from .objeval import ObjEvaluator, PyRaise
-        from .symeval import Arr, RaiseReached, sym_array, const_int, materialise
+        from .symeval import Arr, RaiseReached, sym_array, const_int, materialise, _Return
         from .poly import Rat
         ev = ObjEvaluator(self.mod, inline=set(), max_depth=8, sign_policy=lambda d, node=None: sign)
         fn = self.fn
@@ -323,7 +323,7 @@ class SegmModel:
                             pass
                     break
                 ev.exec_stmt(st, env)
-        except (PyRaise, RaiseReached):
+        except (PyRaise, RaiseReached, _Return):
             return None            # the combination is rejected before the walk starts
         for v in env.values():
             t = is_table(v) if not isinstance(v, (str, bool, type(None))) else None
